@@ -655,9 +655,12 @@ def validate_fromAggregatorI (a : SubsArgsI) : Except Reject Unit :=
   else if a.shape.any (fun e => decide (e ≤ 0)) then .error .reject
   else validate_fromAggregator a.toNat
 
-/-- `sptensor(subs, vals, shape)`: the constructor never looks at the sign of an extent; with
-entries present the range test `max(subs) < shape` does it implicitly -/
-def validate_sptensorI (a : SubsArgsI) : Except Reject Unit := validate_sptensor a.toNat
+/-- `sptensor(subs, vals, shape)` (after commit eaa8284): `tt_sizecheck(shape)` right after
+`parse_shape` (every extent a positive integer), then the count, width and range tests of
+`validate_sptensor` -/
+def validate_sptensorI (a : SubsArgsI) : Except Reject Unit :=
+  if a.shape.any (fun e => decide (e ≤ 0)) then .error .reject
+  else validate_sptensor a.toNat
 
 /-- `parse_one_d`: an ndarray is squeezed and must then have at most one dimension (a 0-d
 result is made 1-d); anything else goes through `np.array` unchanged.  The shape afterwards. -/
@@ -713,6 +716,10 @@ def dimsAccepted (dimArr : List Int) : Bool := !dimArr.any (· < 0)
 
 /-- pinned `sptenmat` index test: `prod(tshape[rdims]) >= max(subs[:, 0])` -/
 def rowIndexAccepted (nrows : Nat) (idx : Int) : Bool := decide ((nrows : Int) ≥ idx)
+
+/-- the plain `sptensor` constructor before commit eaa8284: the sign of an extent was never
+tested (with entries present the range test did it implicitly) -/
+def sptensorI (a : SubsArgsI) : Except Reject Unit := validate_sptensor a.toNat
 
 /-- pinned dense `permute`: the length test, then `np.transpose`, which also takes axes counted
 from the end -/
